@@ -129,7 +129,7 @@ ValuesOf(P, F) ==
     CASE F = "GroupSize"     -> 1..16
       [] F = "GroupIndex"    -> 0..15
       [] F = "Fee"           -> FeeReps(P)
-      [] F \in AddrFieldNames -> {ZEROADDR, 1, CREATOR, ATTACKER}
+      [] F \in AddrFieldNames -> {ZEROADDR, 1, 2, CREATOR, ATTACKER}
       [] F = "TypeEnum"      -> 1..6
       [] F = "OnCompletion"  -> 0..5
       [] F = "ApplicationID" -> {0, 7}
